@@ -9,6 +9,7 @@ import (
 	"os/exec"
 	"strings"
 	"sync"
+	"syscall"
 	"time"
 )
 
@@ -38,6 +39,8 @@ func StartChildWith(prefix []string, prop string) (*Child, error) {
 func (c *Child) start() error {
 	args := append(append([]string(nil), c.prefix...), os.Args[0], "child", c.prop)
 	c.cmd = exec.Command(args[0], args[1:]...)
+	// never outlive the harness (a killed run must not leave spinning children behind)
+	c.cmd.SysProcAttr = &syscall.SysProcAttr{Pdeathsig: syscall.SIGKILL}
 	c.cmd.Env = append(os.Environ(), "GOTRACEBACK=single", "GOMEMLIMIT=6GiB")
 	in, err := c.cmd.StdinPipe()
 	if err != nil {
